@@ -32,6 +32,8 @@ func randKey(rng *vk.Rand, pool []rune, minLen, maxLen int) string {
 func genKeys(rng *vk.Rand, n int, taken map[string]bool) []string {
 	pool := runePools[rng.Intn(len(runePools))]
 	numeric := rng.Chance(1, 6)
+	// a quarter of the key sets contain long keys (a device path of 90-400 bytes): the key is what the page token carries
+	long := rng.Chance(1, 4)
 	out := make([]string, 0, n)
 	for tries := 0; len(out) < n; tries++ {
 		var id string
@@ -45,6 +47,8 @@ func genKeys(rng *vk.Rand, n int, taken map[string]bool) []string {
 			if len(rs) > 1 {
 				id = string(rs[:rng.Range(1, len(rs)-1)])
 			}
+		case long && rng.Chance(1, 3):
+			id = randKey(rng, pool, 1, 3) + "/" + randKey(rng, pool, 90, 400)
 		case numeric:
 			id = strconv.Itoa(rng.Intn(3*n + 10 + 2*tries))
 		default:
